@@ -36,10 +36,11 @@ func tv(s string) atrun.Arg   { return atrun.Arg{T: "time", V: s} }
 func bv(hex string) atrun.Arg { return atrun.Arg{T: "bytes", V: hex} }
 
 type sgen struct {
-	noNow bool // programs with a global transaction: the AT proxy reads the server clock too (undo_log), so now() values differ
-	r     *hutil.Rng
-	tmp   int
-	uniq  int
+	noInterp bool // DSN without interpolateParams: bound arguments reach the target as driver.ErrSkip + prepared statement
+	noNow    bool // programs with a global transaction: the AT proxy reads the server clock too (undo_log), so now() values differ
+	r        *hutil.Rng
+	tmp      int
+	uniq     int
 }
 
 func (g *sgen) id() int { return 1 + g.r.Intn(8) }
@@ -225,7 +226,14 @@ func (g *sgen) outsideOps(n int) []Op {
 		conn := []string{"", "", "c1", "c2"}[r.Intn(4)]
 		switch {
 		case conn != "" && !open[conn] && r.Chance(1, 3):
-			ops = append(ops, Op{K: "begin", Conn: conn})
+			b := Op{K: "begin", Conn: conn}
+			if r.Chance(1, 5) {
+				b.ReadOnly = true
+			}
+			if r.Chance(1, 4) {
+				b.Iso = []int{1, 2, 4, 6}[r.Intn(4)]
+			}
+			ops = append(ops, b)
 			open[conn] = true
 		case conn != "" && open[conn] && r.Chance(1, 4):
 			k := "commit"
@@ -262,14 +270,50 @@ func (g *sgen) outsideOps(n int) []Op {
 func (g *sgen) insideOps(n int) []Op {
 	r := g.r
 	var ops []Op
+	// statements inside the predicate of a listed finding (they fail without effect; the rest of the
+	// program is still compared), and statements run with a context that does NOT carry the xid
+	isDML := func(o Op) bool {
+		return strings.HasPrefix(o.SQL, "UPDATE") || strings.HasPrefix(o.SQL, "DELETE") || strings.HasPrefix(o.SQL, "INSERT")
+	}
+	special := func(o Op, localTx bool) Op {
+		switch {
+		case r.Chance(1, 12) && (strings.HasPrefix(o.SQL, "UPDATE") || strings.HasPrefix(o.SQL, "DELETE")):
+			o.Prepared = true // finding region stmt.prepared-in-gtx
+		case r.Chance(1, 14):
+			o = stmt(fmt.Sprintf("UPDATE t_user SET age = %d WHERE name = 'n%d'", r.Intn(90), 1+r.Intn(3)), false) // where.string-literal
+		}
+		if r.Chance(1, 5) {
+			o.Plain = true
+		}
+		if !o.Plain && g.noInterp {
+			// with an xid-carrying context and interpolateParams off: UPDATE/DELETE only with bound arguments (the
+			// finding region: nothing is applied), no INSERT (applied, then its image query is refused), queries free
+			for tries := 0; tries < 50 && isDML(o) && (strings.HasPrefix(o.SQL, "INSERT") || len(o.Args) == 0) && !strings.Contains(o.SQL, "name = 'n"); tries++ {
+				if r.Chance(1, 2) {
+					o = g.update()
+				} else {
+					o = g.sel(false)
+				}
+			}
+			if strings.Contains(o.SQL, "FOR UPDATE") && len(o.Args) > 0 {
+				o = g.sel(false)
+			}
+		}
+		if !o.Plain && localTx && strings.Contains(o.SQL, "FOR UPDATE") {
+			o = g.sel(false) // a locking read with an xid context inside a transaction begun without one: not generated (docs)
+		}
+		return o
+	}
 	for len(ops) < n {
 		if r.Chance(1, 3) {
-			ops = append(ops, Op{K: "begin", Conn: "c1"})
+			local := r.Chance(1, 3)
+			ops = append(ops, Op{K: "begin", Conn: "c1", Plain: local})
 			for k := 0; k < 1+r.Intn(3); k++ {
 				o := g.anyIn()
 				for strings.HasPrefix(o.SQL, "CREATE") || strings.HasPrefix(o.SQL, "DROP") {
 					o = g.anyIn() // DDL commits implicitly: keep it out of explicit transactions
 				}
+				o = special(o, local)
 				o.Conn = "c1"
 				ops = append(ops, o)
 			}
@@ -280,7 +324,7 @@ func (g *sgen) insideOps(n int) []Op {
 			ops = append(ops, Op{K: k, Conn: "c1"})
 			continue
 		}
-		ops = append(ops, g.anyIn())
+		ops = append(ops, special(g.anyIn(), false))
 	}
 	return ops
 }
@@ -301,7 +345,9 @@ func GenOutside(r *hutil.Rng, i int) Program {
 // GenInside: programs mixing outside segments and committed global transactions.
 func GenInside(r *hutil.Rng, i int) Program {
 	g := &sgen{r: r, noNow: true}
-	p := Program{Setup: setup(r)}
+	p := Program{Setup: setup(r), Params: []string{"interpolateParams=true&parseTime=true&multiStatements=true",
+		"interpolateParams=false&parseTime=true&multiStatements=true", "interpolateParams=true&parseTime=true"}[r.Intn(3)]}
+	g.noInterp = !interpolates(p.Params)
 	for k := 0; k < 1+r.Intn(3); k++ {
 		if r.Chance(1, 2) {
 			p.Segs = append(p.Segs, Segment{Ops: g.outsideOps(1 + r.Intn(4))})
@@ -386,7 +432,42 @@ func GenFinding(pred string, r *hutil.Rng, i int) Program {
 		if r.Chance(1, 3) {
 			o = g.del()
 		}
-		o.Prepared = true
+		o.Prepared = true // UPDATE / DELETE only: a prepared INSERT is applied before its image query fails
 	}
-	return Program{Setup: setup(r), Segs: []Segment{{Gtx: true, Ops: []Op{o}}}}
+	after := []Op{g.update(), stmt("UPDATE t_user SET age = age + 1 WHERE id = 1", false), g.sel(true)}
+	return Program{Setup: setup(r), Segs: []Segment{{Gtx: true, Ops: []Op{g.sel(false), o, g.update()}}, {Ops: after}}}
+}
+
+// GenXAMix: one global transaction with one autocommit statement on the pool between
+// outside segments; after it, statements (some failing) run on the same pooled connection.
+func GenXAMix(r *hutil.Rng, i int) Program {
+	g := &sgen{r: r, noNow: true}
+	pool := func(n int) []Op {
+		var ops []Op
+		for k := 0; k < n; k++ {
+			o := g.anyOut()
+			for strings.HasPrefix(o.SQL, "XA ") {
+				o = g.anyOut()
+			}
+			ops = append(ops, g.maybePrepared(o))
+		}
+		return ops
+	}
+	var in Op
+	switch r.Intn(4) {
+	case 0:
+		in = g.del()
+	case 1:
+		in = g.insert1()
+	default:
+		in = g.update()
+	}
+	in.Args, in.SQL = nil, strings.ReplaceAll(in.SQL, "?", "1") // literal form only: bound arguments inside are a finding region
+	if strings.Contains(in.SQL, "t_item") || strings.Contains(in.SQL, "t_kv") {
+		in = stmt(fmt.Sprintf("UPDATE t_user SET age = %d WHERE id = %d", r.Intn(90), g.id()), false)
+	}
+	after := append(pool(1+r.Intn(3)), stmt(fmt.Sprintf("INSERT INTO t_user (id, name) VALUES (%d, 'dup')", 1+r.Intn(3)), false))
+	after = append(after, pool(1+r.Intn(3))...)
+	return Program{Setup: setup(r), XAMix: true, Version: []string{"5.7.30", "8.0.30"}[r.Intn(2)],
+		Segs: []Segment{{Ops: pool(r.Intn(3))}, {Gtx: true, Ops: []Op{in}}, {Ops: after}}}
 }
